@@ -23,6 +23,9 @@ var c14Schemas = []c14S{
 	{`@t`, 's'}, {`@a | @b`, 's'},
 	{`1 // {min: 0}`, 'a'}, {`"a" // {minLength: 1} - note`, 'a'}, {"{ // {additionalProperties: true}\n  \"a\": 1 // {optional: true}\n}", 'b'},
 	{`1 /* {min: 0} */`, 'm'}, {"[ // {minItems: 1}\n  1\n]", 'b'},
+	// a user comment after an annotation's note, after rules, and after a bare value: the line is part of S
+	{`1 // {min: 0} - note # c`, 'a'}, {`2 // note # c`, 'a'}, {`3 // {min: 0} # c`, 'a'}, {`{} # c`, 'a'},
+	{"{\n  \"a\": 1 // note # c\n}", 'b'},
 }
 
 var c14Docs = []c14S{
